@@ -95,7 +95,7 @@ class Analysis:
         for rnd in range(3):
             self.reports, self.checks = [], []
             before = (repr(self.paramq), repr(self.fieldq), repr(self.retq))
-            for qn in [q for _r, q, _k in ORDER] + list(self.extra):
+            for qn in [q for _r, q, _k in ORDER]:
                 fi = self.fns[qn]
                 w = Walker(self, fi)
                 w.run(fi.node.body)
@@ -385,6 +385,32 @@ class Walker:
             # a private helper extracted from an anchored method: analysed like one, parameters typed at the call site
             self.A.fns[f"{self.cls}.{f.attr}"] = self.fi.cls.methods[f.attr]
             self.A.extra.append(f"{self.cls}.{f.attr}")
+        if isinstance(f, ast.Attribute) and src(f.value) == "self" and f"{self.cls}.{f.attr}" in self.A.extra and getattr(self, "_depth", 0) < 3:
+            # discovered helper: analysed in the context of this call (its parameters carry the qualifiers of *these*
+            # arguments, its result is the join of its returns) - one helper may serve inputs at one site and outputs at another
+            callee = f"{self.cls}.{f.attr}"
+            hfi = self.A.fns[callee]
+            params = [a.arg for a in hfi.node.args.args if a.arg != "self"]
+            env2 = {}
+            for pn, a in list(zip(params, args)) + [(k.arg, k.value) for k in e.keywords if k.arg]:
+                qa = self.q(a)
+                if qa != TOP:
+                    env2[pn] = qa
+            w = Walker(self.A, hfi, env2)
+            w._depth = getattr(self, "_depth", 0) + 1
+            w.lossless, w.noheralds = self.lossless, self.noheralds
+            for a_ in hfi.node.args.args + hfi.node.args.kwonlyargs:
+                if a_.arg == "min_detection" and a_.arg not in w.env:
+                    w.env[a_.arg] = Q("pcount", "VIS")
+            saved = self.A.retq.get(callee)
+            self.A.retq.pop(callee, None)
+            w.run(hfi.node.body)
+            out = self.A.retq.get(callee, TOP)
+            if saved is not None:
+                self.A.retq[callee] = saved
+            else:
+                self.A.retq.pop(callee, None)
+            return out
         if isinstance(f, ast.Attribute) and src(f.value) == "self" and f"{self.cls}.{f.attr}" in self.A.fns:
             callee = f"{self.cls}.{f.attr}"
             params = [a.arg for a in self.A.fns[callee].node.args.args if a.arg != "self"]
